@@ -345,8 +345,8 @@ func (a *analyzer) scanFunc(p *packages.Package, fd *ast.FuncDecl) *fnInfo {
 			}
 		case *ast.CallExpr:
 			if id, ok := ast.Unparen(x.Fun).(*ast.Ident); ok {
-				if b, ok := info.Uses[id].(*types.Builtin); ok && (b.Name() == "make" || b.Name() == "new" || b.Name() == "append") {
-					return b.Name() != "append" || (len(x.Args) > 0 && false)
+				if b, ok := info.Uses[id].(*types.Builtin); ok && (b.Name() == "make" || b.Name() == "new") {
+					return true
 				}
 			}
 			if tv, ok := info.Types[x.Fun]; ok && tv.IsType() {
@@ -512,7 +512,7 @@ func (a *analyzer) scanFunc(p *packages.Package, fd *ast.FuncDecl) *fnInfo {
 // callImpure: may this call (in value position inside a map-range body) write state that outlives the iteration?
 // `ownedRoot` tells whether an expression is rooted at a per-iteration local of the loop.
 func (a *analyzer) callImpure(info *types.Info, ce *ast.CallExpr, fn *types.Func, ownedRoot func(ast.Expr) bool) bool {
-	_, iface := false, false
+	iface := false
 	if sig, ok := fn.Type().(*types.Signature); ok && sig.Recv() != nil {
 		_, iface = sig.Recv().Type().Underlying().(*types.Interface)
 	}
